@@ -2,6 +2,7 @@
 
 use crate::dbx::*;
 use crate::engine::*;
+use crate::model::*;
 use proptest::prelude::*;
 use serde::{Deserialize, Serialize};
 use std::collections::BTreeSet;
@@ -220,9 +221,27 @@ impl Prop for C04 {
         if c.stress_threads >= 2 {
             out.label("concurrent-stores");
             let mut batches: Vec<Vec<usize>> = Vec::new();
+            // a stored regular event for the refused deletion requests of thread 1 to name
+            let victim: Option<MEvent> = w.offsets.values().map(|i| w.events[*i].clone()).find(|e| e.kind == 1 && !touched.contains(&e.id));
             for t in 0..c.stress_threads {
                 let mut b = Vec::new();
                 for k in 0..c.per_thread {
+                    if let (1, true, Some(v)) = (t, c.stress_threads >= 3, victim.as_ref()) {
+                        // thread 1 (when there are three or more): deletion requests by somebody else, refused after
+                        // their bytes were appended
+                        let requester = (0u8..4).map(author).find(|a| *a != v.pubkey).unwrap();
+                        let m = MEvent {
+                            id: crate::model::hex(&crate::sha256::sha256(format!("stress-del-{}-{k}", w.events.len()).as_bytes())),
+                            pubkey: requester,
+                            sig: "00".repeat(64),
+                            kind: 5,
+                            created_at: 400 + k as u64,
+                            tags: vec![vec!["e".to_string(), v.id.clone()]],
+                            content: String::new(),
+                        };
+                        b.push(w.intern(m, None));
+                        continue;
+                    }
                     let ge = GenEvent {
                         author: t % 4,
                         kind: if t == 0 { 20000 + (k as u16 % 3) } else if k % 5 == 0 { 10002 } else { 1 },
